@@ -257,16 +257,38 @@ void mx_fork_case(const char *desc, mx_case_fn fn, void *ctx)
     {
         memset(&r, 0, sizeof(r));
         snprintf(r.desc, sizeof(r.desc), "%s", desc);
-        if (WIFSIGNALED(status))
         {
-            int sig = WTERMSIG(status);
-            snprintf(r.outcome, sizeof(r.outcome), sig == SIGALRM ? "HANG" : "CRASH-sig%d", sig);
-            snprintf(r.key, sizeof(r.key), sig == SIGALRM ? "hang" : "crash-sig%d", sig);
-        }
-        else
-        {
-            snprintf(r.outcome, sizeof(r.outcome), "EXIT-%d", WEXITSTATUS(status));
-            snprintf(r.key, sizeof(r.key), "abnormal-exit-%d", WEXITSTATUS(status));
+            /* stable class of the case: the human-readable part of the descriptor without digits */
+            char cls[100];
+            const char *h = strchr(desc, '(');
+            size_t k = 0;
+            for (h = h ? h + 1 : desc; *h && *h != ')' && k < sizeof(cls) - 1; h++)
+            {
+                if (*h >= '0' && *h <= '9' && k > 0 && (cls[k - 1] == '=' || cls[k - 1] == '#' || (cls[k - 1] >= '0' && cls[k - 1] <= '9')))
+                {
+                    continue;
+                }
+                cls[k++] = (*h == ' ') ? '_' : *h;
+            }
+            cls[k] = 0;
+            if (WIFSIGNALED(status))
+            {
+                int sig = WTERMSIG(status);
+                snprintf(r.outcome, sizeof(r.outcome), sig == SIGALRM ? "HANG" : "CRASH-sig%d", sig);
+                if (sig != SIGALRM)
+                {
+                    snprintf(r.key, sizeof(r.key), "crash-sig%d|%s", sig, cls);
+                }
+                else
+                {
+                    snprintf(r.key, sizeof(r.key), "hang|%s", cls);
+                }
+            }
+            else
+            {
+                snprintf(r.outcome, sizeof(r.outcome), "EXIT-%d", WEXITSTATUS(status));
+                snprintf(r.key, sizeof(r.key), "abnormal-exit-%d|%s", WEXITSTATUS(status), cls);
+            }
         }
         snprintf(r.what, sizeof(r.what), "case child ended abnormally (%s) on %s", r.outcome, desc);
         r.violation = C->sanitizer_is_oracle ? 1 : 2;
